@@ -79,8 +79,11 @@ MANIFEST = {
             "behaviours of the unchanged code outside the theorems' hypotheses are kept as replays "
             "in corpus/C10/findings (exchange-cycle: exchange with an EQUIVALENT node can self-alias "
             "a node via a stale dedup key; flag-negated-alias: Negated(Aliased(and-join)) flagged "
-            "simple); they print PENDING-FINDING until listed in known_findings.txt (then "
-            "KNOWN-FINDING). Neither was reached by scripts restricted to insert / simplify / "
+            "simple; demorgan-crash-outside-precondition: double negation through an alias "
+            "crashes transform_negated_joins); they are reported through ctx.violation "
+            "(KNOWN-FINDING when listed in known_findings.txt, VIOLATION otherwise); "
+            "demorgan-negated-alias-of-join.ops is a regression script for repo fix 9889e64. "
+            "The first two were not reached by scripts restricted to insert / simplify / "
             "replace_and_simplify / transform_negated_joins. Raw exchange with a non-equivalent "
             "node is not meaning preserving by contract: only correspondence is checked after it.",
 }
@@ -635,13 +638,11 @@ class View:
                               f"`{op}`: transform_negated_joins crashed (a compiled-out assertion "
                               "failed: null id inserted) on a tree with alias nodes / a negation "
                               "of an alias of a negation")
-                elif kind == "bad-variant" and alias_of_join(pre_nodes):
-                    # DeMorganSimplifier::add_negation_for_operands calls std::get<Joined> on the
-                    # un-dealiased id: throws when a negation (or a negated join's operand) points
-                    # at an ALIAS of a join.  Pre-existing behaviour of the unchanged code.
+                elif kind == "bad-variant":
+                    # fixed by repo commit 9889e64 (add_negation_for_operands de-aliases): must
+                    # not come back
                     self.fail("demorgan-negated-alias-of-join",
-                              f"`{op}`: transform_negated_joins threw std::bad_variant_access "
-                              "(a negated node / negated-join operand is an alias of a join)")
+                              f"`{op}`: transform_negated_joins threw std::bad_variant_access")
                 else:
                     self.fail("demorgan-exception", f"`{op}` answered {head}")
             else:
@@ -1566,16 +1567,6 @@ def report_fail(ctx, exe, ops, f, reported):
         _, out = vlib.run_lines([exe], mops, timeout=30)
     except subprocess.TimeoutExpired:
         out = ["<timeout>"]
-    if f["key"] in ("flag-negated-alias", "demorgan-negated-alias-of-join",
-                    "demorgan-crash-outside-precondition") \
-            and not any(k["key"] == f["key"] for k in ctx.known):
-        # confirmed finding outside the hypothesis NoNegAlias of flagSimple_sound (see
-        # corpus/C10/findings/flag-negated-alias.ops): pending the coordinator's decision
-        ctx.coverage.setdefault("pending_finding_instances", []).append(
-            {"key": f["key"], "ops": mops, "what": mf["what"]})
-        print(f"# PENDING-FINDING property=C10 key={f['key']} (generated script, "
-              f"{len(mops)} ops; same defect as corpus/C10/findings/{f['key']}.ops)")
-        return
     ctx.violation(f["key"], "real CSG code: " + mf["what"],
                   {"kind": "oracle", "harness": "harness/csg.cc", "key": f["key"], "ops": mops,
                    "impl_last": out[-1:] and out[-1][:400], "what": mf["what"],
@@ -1619,6 +1610,10 @@ def _finding_reproduces(key, out):
 
 
 NOTE_KEYS = {"simplify-start-order", "replace-order"}
+# fixed defects: key -> predicate on the harness answers telling that the old behaviour is back
+REGRESSION_KEYS = {
+    "demorgan-negated-alias-of-join": lambda out: any(o.startswith("error") for o in out),
+}
 
 FINDING_TEXT = {
     "flag-negated-alias": "InternalSurfaceFlagger answers `simple` for Negated(Aliased(Joined and)) "
@@ -1651,9 +1646,9 @@ FINDING_TEXT = {
 def run_findings(ctx, exe):
     """corpus/C10/findings/*.ops: behaviours of the UNCHANGED code that contradict the property
     outside the hypotheses of the theorems.  Each is replayed on the real code (and the model);
-    a reproduced finding goes through ctx.violation when its key is listed in
-    known_findings.txt (-> KNOWN-FINDING line), otherwise it is printed as a PENDING-FINDING
-    comment and recorded in the evidence (the coordinator decides: fix or known finding)."""
+    a reproduced finding is reported through ctx.violation (KNOWN-FINDING when its key is listed
+    in known_findings.txt, VIOLATION otherwise).  Scripts whose key is in REGRESSION_KEYS pin a
+    defect that was fixed in /repo: they must run cleanly."""
     d = os.path.join(vlib.CORPUS, "C10", "findings")
     res = []
     if not os.path.isdir(d):
@@ -1672,6 +1667,26 @@ def run_findings(ctx, exe):
             _, om = vlib.run_lines([vlib.model_exe("C10")], ops, timeout=60)
         except Exception:
             om = None
+        if key in REGRESSION_KEYS:
+            # fixed in /repo: the script must now run cleanly (every op answered, nothing the
+            # oracle objects to); the old behaviour coming back is a violation with this input
+            bad = None
+            if len(out) != len(ops):
+                bad = "harness did not answer every op"
+            elif REGRESSION_KEYS[key](out):
+                bad = "old behaviour is back: " + next(o for o in out if o.startswith("error"))[:60]
+            else:
+                v = run_oracle(ops, out)
+                if v.fails:
+                    bad = v.fails[0]["what"]
+            res.append({"file": fn, "key": key, "regression": True, "passes": bad is None,
+                        "model_agrees": om == out})
+            if bad is not None:
+                ctx.violation(key, f"regression script corpus/C10/findings/{fn}: {bad}",
+                              {"ops": ops, "impl": out[-2:], "file": fn,
+                               "contradicts": "deMorgan_handles_negated_alias_of_join"},
+                              found_input=True)
+            continue
         rep, detail = _finding_reproduces(key, out)
         listed = any(k["key"] == key for k in ctx.known)
         res.append({"file": fn, "key": key, "reproduced": rep, "detail": detail,
@@ -1680,12 +1695,10 @@ def run_findings(ctx, exe):
             # ordering-only observations: truth values are preserved, not a C10 violation
             ctx.notes.append(f"{key}: {FINDING_TEXT.get(key, key)} [replayed, reproduces]")
         elif rep:
-            what = FINDING_TEXT.get(key, key)
-            if listed:
-                ctx.violation(key, what, {"ops": ops, "impl": out[-2:], "file": fn})
-            else:
-                print(f"# PENDING-FINDING property=C10 key={key} replay=corpus/C10/findings/{fn} "
-                      f"{what}")
+            # a genuine defect: KNOWN-FINDING when listed in known_findings.txt, else VIOLATION
+            # (vlib.Ctx.violation / finish do the split)
+            ctx.violation(key, FINDING_TEXT.get(key, key),
+                          {"ops": ops, "impl": out[-2:], "file": fn}, found_input=True)
     return res
 
 
